@@ -34,7 +34,8 @@ func init() {
 		{Name: "flag-for-every-error", File: "query.go", Old: "\t\t\t\t\tif IsException(err) {\n\t\t\t\t\t\t// Prevent query cancellation on exception.\n\t\t\t\t\t\tgotException.Store(true)\n\t\t\t\t\t}", New: "\t\t\t\t\tgotException.Store(true)", Rule: "C04.exception-flag", Construct: ""},
 		{Name: "do-keeps-pending-output", File: "query.go", Old: "\t\tc.writer.Reset()\n\t\treturn err\n\t}\n\treturn nil\n}", New: "\t\treturn err\n\t}\n\treturn nil\n}", Rule: "C04.discard-do", Construct: "Do"},
 		{Name: "flush-keeps-pending-output", File: "client.go", Old: "\t\t// Do not keep data of failed request queued.\n\t\tc.writer.Reset()\n", New: "", Rule: "C04.discard-flush", Construct: "flush"},
-		{Name: "done-closed-late", File: "query.go", Old: "\t\tdefer close(done)\n\t\tif colInfo != nil {\n\t\t\tdefer close(colInfo)\n\t\t}\n\t\tonResult := c.resultHandler(q)", New: "\t\tif colInfo != nil {\n\t\t\tdefer close(colInfo)\n\t\t}\n\t\tonResult := c.resultHandler(q)\n\t\tdefer close(done)", Rule: "C04.watch-done", Construct: ""},
+		{Name: "failure-flag-after-close", File: "query.go", Old: "\t\tdefer close(done)\n\t\tdefer func() {\n\t\t\t// Errgroup cancels context only after this function returns, i.e.\n\t\t\t// after done is closed.\n\t\t\treceiveFailed.Store(err != nil)\n\t\t}()\n", New: "\t\tdefer func() {\n\t\t\treceiveFailed.Store(err != nil)\n\t\t}()\n\t\tdefer close(done)\n", Rule: "C04.watch-order", Construct: ""},
+		{Name: "watch-ignores-failure-flag", File: "query.go", Old: "if (ctx.Err() != nil || receiveFailed.Load()) && !gotException.Load() {", New: "if ctx.Err() != nil && !gotException.Load() {", Rule: "C04.watch-order", Construct: ""},
 	}
 	mutants["C05"] = []Mutant{
 		{Name: "no-datasize-limit", File: "compress/reader.go", Old: "if dataSize < 0 || dataSize > maxDataSize {", New: "if dataSize < 0 {", Rule: "C05.bounds", Construct: ""},
